@@ -134,9 +134,14 @@ func refDepth(f *ir.File, name string, guard int) int {
 
 // SplitDep moves some declarations into an imported file of the same package (ir.Message.InDep): real .proto trees
 // spread their messages over several files, and a selected type may reach messages the generated file does not
-// declare. The moved set is closed under references (an imported file cannot refer back) and never holds a
-// selected type.
+// declare. The moved set is closed under references (an imported file cannot refer back).
 func SplitDep(t *rapid.T, f *ir.File, types []string) {
+	// One split in three may also move selected types: `types` names messages of the package, and a selected
+	// message that is declared in the imported file is generated into the output all the same (C01: the three
+	// functions exist for each selected message).
+	if rapid.IntRange(0, 2).Draw(t, "deproots") == 0 {
+		types = nil
+	}
 	var closure func(name string, acc map[string]bool) bool
 	closure = func(name string, acc map[string]bool) bool {
 		if acc[name] {
